@@ -113,6 +113,7 @@ func (fr *Frame) call(in ssa.Instruction, c *ssa.CallCommon, st *State, g string
 			id := func(v SV) string { return app("kvval", app("select", h, sarr(v.t)), soff(v.t), slen(v.t)) }
 			fc.assume(g, eq(res[0].t, eq(id(args[0]), id(args[1]))))
 		}
+		fr.seqEqualFact(key, args, res, st, g) // ext_seqequal.go
 		return res
 	}
 	if callee != nil && len(callee.Blocks) > 0 && fc.eng.isRepoFunc(callee) {
@@ -151,8 +152,13 @@ func (fr *Frame) call(in ssa.Instruction, c *ssa.CallCommon, st *State, g string
 		fr.assumeWF(res, st, g)
 		return res
 	}
-	fc.warn("call to %s without contract at %s: havoc everything", key, fc.eng.pos(pos))
-	fc.assumes["unspecified external call "+key+" (havoc)"] = true
+	if strings.HasSuffix(key, ".init") && len(c.Args) == 0 {
+		// initializer of an imported package, called at the start of a package initializer: havoc everything, one summary line
+		fc.assumes["package initializers of dependencies: unknown effects (everything havocked)"] = true
+	} else {
+		fc.warn("call to %s without contract at %s: havoc everything", key, fc.eng.pos(pos))
+		fc.assumes["unspecified external call "+key+" (havoc)"] = true
+	}
 	fc.noteWriteAll()
 	fc.havocComps(st, nil, true)
 	res := fr.resultSVs(sig, fr.prefix+"x", st, g)
@@ -163,6 +169,9 @@ func (fr *Frame) call(in ssa.Instruction, c *ssa.CallCommon, st *State, g string
 func (fc *FnCtx) canInline(fr *Frame, callee *ssa.Function, spec *FuncSpec) bool {
 	if spec != nil && spec.Inline {
 		return fr.depth < 8
+	}
+	if callee.Synthetic == "package initializer" {
+		return false // another package's initializer (called from a package initializer under contract): summarised, never inlined
 	}
 	if fr.depth >= 4 {
 		return false
@@ -271,6 +280,10 @@ func (fr *Frame) applySpecClosure(spec *FuncSpec, key string, sig *types.Signatu
 			if i < len(rec.bindings) {
 				if pt, ok := fv.Type().Underlying().(*types.Pointer); ok {
 					env.vars[fv.Name()] = SV{t: fc.load(cur, rec.bindings[i].t, pt.Elem()), typ: pt.Elem()}
+					if env.fvAddr == nil {
+						env.fvAddr = map[string]SV{}
+					}
+					env.fvAddr[fv.Name()] = SV{t: rec.bindings[i].t, typ: pt.Elem()}
 				}
 			}
 		}
@@ -303,11 +316,18 @@ func (fr *Frame) applySpecClosure(spec *FuncSpec, key string, sig *types.Signatu
 		}
 		if fr.trustsPre(key) {
 			fc.assumes["no-panic condition of "+key+" assumed at its call sites in "+funcKey(fr.fn)+" (trustpre): !("+cl.Text+")"] = true
+		} else if ob, prop := fr.panicPropagation(t); prop {
+			// caller documents its own panics: the callee's panic must fall under them (ext_panicprop.go)
+			fc.oblige(fr, "panic-spec", fmt.Sprintf("%s:%d", key, i), g, ob, pos, "callee panics when "+cl.Text+": only under the caller's documented panic condition", fr.props())
+		} else if np := fr.rootNoPanic(); np != "" {
+			// ext_nopanic.go: the caller propagates the callee's documented panic, except under its own `nopanic when` condition
+			fc.oblige(fr, "nopanic", fmt.Sprintf("%s:%d", key, i), g, implies(np, not(t)), pos, "under the `nopanic when` condition the callee does not panic: !("+cl.Text+")", fr.props())
 		} else {
 			fc.oblige(fr, "pre", fmt.Sprintf("%s:nopanic%d", key, i), g, not(t), pos, "callee panics when "+cl.Text, fr.props())
 		}
 		fc.assume(g, not(t))
 	}
+	fr.calleeNoPanic(spec, key, env, g, pos) // ext_nopanic.go
 	old := st.clone()
 	// frame
 	if !spec.HasMod && !spec.Trusted && !spec.Assume {
@@ -473,6 +493,9 @@ func (fr *Frame) applySpecClosure(spec *FuncSpec, key string, sig *types.Signatu
 		env.vars["result"] = res[0]
 	}
 	for _, cl := range spec.Ensures {
+		if strings.HasPrefix(cl.Label, "local-") && !spec.Assume {
+			continue // `ensures [local-...]`: proved against the body, not re-assumed at call sites (keeps the callers' VCs small)
+		}
 		t, err := env.evalBool(cl.E)
 		if err != nil {
 			fc.eng.stale(spec, cl, err)
@@ -504,6 +527,9 @@ func (fr *Frame) applySpecClosure(spec *FuncSpec, key string, sig *types.Signatu
 			name := "pf_" + mangle(key)
 			fc.eng.declareUF(fc, name, sorts, fc.tc.sortOf(res[0].typ))
 			fc.assume(g, eq(res[0].t, app(name, ts...)))
+		} else if t, ok := fc.pureHeapTerm(key, st, args, res[0].typ); ok {
+			// pure-heap rule (pureheap.go): the result is the value the spec term `f(args)` denotes in this state
+			fc.assume(g, eq(res[0].t, t))
 		}
 	}
 	return res
@@ -596,6 +622,7 @@ func (fr *Frame) builtin(in ssa.Instruction, b *ssa.Builtin, c *ssa.CallCommon, 
 			l := fc.define(fr.prefix+"maplen", "Int", ite(eq(a.t, nilPtr), "0", app("select", fc.comp(st, "ML", "(Array Ptr Int)"), a.t)))
 			fc.assume("true", app(">=", l, "0"))
 			fr.extMapLenEmpty(u, a.t, l, st) // ext_mapiter.go: a map of length 0 has no entry
+			fc.mapLenWitness(st, u, a.t, l) // len(m) > 0 ==> m has some key (ext_c34.go)
 			return []SV{{t: l, typ: intT}}
 		}
 		fc.unsupported("len of " + c.Args[0].Type().String())
@@ -688,6 +715,9 @@ func (fr *Frame) appendBuiltin(c *ssa.CallCommon, args []SV, st *State, g string
 			st.heap[k] = h
 			return SV{t: res, typ: c.Args[0].Type()}
 		}
+		if fr.appendStructElems(s, more, len(args) > 1, res, newLen, st, et) { // ext_crypto.go: slice of flat structs
+			return SV{t: res, typ: c.Args[0].Type()}
+		}
 		fc.unsupported("append to slice of " + et.String())
 		return SV{t: res, typ: c.Args[0].Type()}
 	}
@@ -709,16 +739,23 @@ func (fr *Frame) appendBuiltin(c *ssa.CallCommon, args []SV, st *State, g string
 		}
 		fc.emit(fmt.Sprintf("(assert (forall ((k Int)) (! (=> (and (<= 0 k) (< k %s)) (= (select %s %s) %s)) :pattern ((select %s %s)))))",
 			addLen, nb, idx(ro, "(+ "+slen(s.t)+" k)"), moreAt, nb, idx(ro, "(+ "+slen(s.t)+" k)")))
-		// the same fact indexed by the position j in the result (the trigger above only matches indices written as len+k)
 		if tc.sortOf(more.typ) != "Str" {
-			fc.emit(fmt.Sprintf("(assert (forall ((j Int)) (! (=> (and (<= %s j) (< j %s)) (= (select %s %s) (select (select %s %s) %s))) :pattern ((select %s %s)))))",
-				slen(s.t), newLen, nb, idx(ro, "j"), heap, sarr(more.t), idx(soff(more.t), "(- j "+slen(s.t)+")"), nb, idx(ro, "j")))
+			// the same fact in absolute-index form (a = len(s) + k), so that a read of the new block at ANY index term triggers it
+			// (the pattern above only matches index terms of the syntactic form len(s) + k)
+			fc.emit(fmt.Sprintf("(assert (forall ((a Int)) (! (=> (and (<= %s a) (< a (+ %s %s))) (= (select %s %s) (select (select %s %s) %s))) :pattern ((select %s %s)))))",
+				slen(s.t), slen(s.t), addLen, nb, idx(ro, "a"), heap, sarr(more.t), idx(soff(more.t), "(- a "+slen(s.t)+")"), nb, idx(ro, "a")))
 		}
 		// the common one-element case gets a ground instance
 		fc.emit(fmt.Sprintf("(assert (=> (= %s 1) (= (select %s %s) %s)))", addLen, nb, idx(ro, slen(s.t)), strings.ReplaceAll(moreAt, " k)", " 0)")))
 	}
 	fc.emit(fmt.Sprintf("(assert (forall ((j Int)) (! (=> (and (<= 0 j) (< j %s)) (= (select %s %s) (select %s %s))) :pattern ((select %s %s)))))",
 		slen(s.t), nb, idx(ro, "j"), oldBlk, idx(soff(s.t), "j"), nb, idx(ro, "j")))
+	if fr.rootMode("append-back") {
+		// `mode append-back`: the same fact, also instantiated from reads of the OLD block, so that an element known before the append
+		// (e.g. an existential witness of a loop invariant) is known to be an element of the result
+		fc.emit(fmt.Sprintf("(assert (forall ((j Int)) (! (=> (and (<= 0 j) (< j %s)) (= (select %s %s) (select %s %s))) :pattern ((select %s %s)))))",
+			slen(s.t), nb, idx(ro, "j"), oldBlk, idx(soff(s.t), "j"), oldBlk, idx(soff(s.t), "j")))
+	}
 	fc.emit(fmt.Sprintf("(assert (=> %s (forall ((i Int)) (! (=> (or (< i %s) (>= i (+ %s %s))) (= (select %s i) (select %s i))) :pattern ((select %s i))))))",
 		inPlace, soff(s.t), soff(s.t), newLen, nb, oldBlk, nb))
 	fc.setComp(st, k, srt, app("store", heap, sarr(res), nb))
@@ -775,6 +812,12 @@ func (fr *Frame) copyBuiltin(c *ssa.CallCommon, args []SV, st *State, g string) 
 		// the copied window holds the same byte string as the source window (see builtin seq)
 		fc.eng.declareUF(fc, "bseq", []string{"(Array Int Int)", "Int", "Int"}, "Int")
 		fc.assume("true", eq(app("bseq", nb, soff(dst.t), n), app("bseq", app("select", heap, sarr(src.t)), soff(src.t), n)))
+		// ... and every window of the destination block that is disjoint from the written one holds the byte string it held
+		// before (bseq is a function of the content of the window; added for C13: two copies into the halves of one array)
+		if fc.usesFact("blockframe") { // opt-in (`uses blockframe`), see ext_crypto.go
+			fc.emit(fmt.Sprintf("(assert (forall ((wo Int) (wn Int)) (! (=> (and (>= wn 0) (or (<= (+ wo wn) %s) (>= wo (+ %s %s)))) (= (bseq %s wo wn) (bseq %s wo wn))) :pattern ((bseq %s wo wn)))))",
+				soff(dst.t), soff(dst.t), n, nb, oldBlk, nb))
+		}
 	}
 	if _, used := fc.ufs["kvval"]; used && fc.tc.sortOf(et) == "Int" && tc.sortOf(src.typ) != "Str" {
 		// T-KV: value ids are functions of the content, and copy makes dst[:n] and src[:n] equal byte strings
